@@ -3,7 +3,7 @@ import copy, itertools, json, os, shutil, tempfile
 import z3
 from vf.pyvc.lib import REG
 from vf import objgen as G
-from contracts import immutability as K
+from contracts import immutability as K, timefmt as KT
 
 LEVEL = 'exploration'
 TLP = 'marking-definition--613f2e26-407d-48c7-9eca-b8e91df99dc9'
@@ -70,6 +70,7 @@ def run(chk):
                        'deepcopy(o) == o and shares no mutable object with o (id walk).')
     for c in (K.setattr_contract(), K.deepcopy_contract()):
         chk.prove(c); chk.canary(c)
+    for k in ('datetime', 'stixdatetime'): chk.prove(KT.parse_contract(k))        # frame: a timestamp handed in (possibly a property value of another object) is never written to
     ins = inputs()
     tmp = tempfile.mkdtemp(prefix='vf-c13-')
     try:
